@@ -389,7 +389,7 @@ def build_bases(repo):
             slots += [Slot(a, "hex") for a in rest[1:]]
         B.append(Base("tap/" + bid, "tap", slots, klass, pair=pair, opts=TAP_OPTS))
 
-    tap("n1", [], G_X, 1, ["[OP_1]"], [], "tap n=1", pair=True)
+    tap("n1", [], G_X, 1, ["[OP_1]"], [], "tap n=1", pair=True)   # quick pair budget excludes it (size)
     tap("n2", [], TAP_PUB, 2, [TAP_ALICE, TAP_BOB], [], "tap n=2")
     tap("n3", [], G_X, 3, ["[OP_1]", "[OP_2]", "[OP_3]"], [], "tap n=3")
     tap("n1-spend", [], G_X, 1, ["[OP_1]"], ["0"], "tap spend")
